@@ -92,10 +92,11 @@ func untrustedCone(w *World, entries []*ssa.Function) []*ssa.Function {
 }
 
 func checkC12(w *World, r *Report) {
-	r.Explanation = "Decides the containment and guard structure that stands between an arbitrary DNS message and a crash or unbounded work: (R12.1) both entry points for untrusted messages — the function registered with miekg/dns for every query, and the client's answer decoder — run under a deferred function that calls recover(), installed before any message-derived data is touched (miekg does not recover, so an uncontained index panic kills the server process); (R12.2) every func-typed field of the command table that is invoked is either non-nil in every table entry or every invocation is dominated by a nil test; (R12.3) sizes requested by the client (fragment-size probe, set-options fragment size) reach allocation/stride uses only behind comparisons against constant lower and upper bounds with an error on the failing edge; (R12.5) every loop in the untrusted cone whose exit depends on loop-carried variables changes one of them on every cyclic path. Not decided: numeric time/allocation bounds, miekg's own parsing, fatal runtime errors."
+	r.Explanation = "Decides the containment and guard structure that stands between an arbitrary DNS message and a crash or unbounded work: (R12.1) both entry points for untrusted messages — the function registered with miekg/dns for every query, and the client's answer decoder — run under a deferred function that calls recover(), installed before any message-derived data is touched (miekg does not recover, so an uncontained index panic kills the server process); (R12.7) the answer decoder turns a recovered panic into a non-nil error result (named result stored by the deferred closure and returned by the recover path); (R12.2) every func-typed field of the command table that is invoked is either non-nil in every table entry or every invocation is dominated by a nil test; (R12.3) sizes requested by the client (fragment-size probe, set-options fragment size) reach allocation/stride uses only behind comparisons against constant lower and upper bounds with an error on the failing edge; (R12.5) every loop in the untrusted cone whose exit depends on loop-carried variables changes one of them on every cyclic path. Not decided: numeric time/allocation bounds, miekg's own parsing, fatal runtime errors."
 	r.NotDecided = []string{"time / allocation bounds as numbers", "miekg/dns message parsing", "unrecoverable runtime errors (stack overflow, out of memory)"}
 	r.Trusted = []string{"miekg/dns v1.1.34 does not recover panics in handlers and accepts only messages with exactly one question (DefaultMsgAcceptFunc)", "recover() in a deferred closure stops a panic raised later in the same goroutine"}
 	r.Rule("R12.1", "panic containment at both untrusted entry points", 2)
+	r.Rule("R12.7", "a recovered panic is reported as an error by the entry point that returns one", 1)
 	r.Rule("R12.2", "command table has no callable nil", 2)
 	r.Rule("R12.3", "client-requested sizes are bounded before use", 2)
 	r.Rule("R12.5", "loops in the untrusted cone make progress", 3)
@@ -189,6 +190,50 @@ func checkC12(w *World, r *Report) {
 			}
 		})
 		r.Check(bad == "", "R12.1", key, pos, "runs under a deferred recover() installed before any message-derived work", bad)
+		// R12.7: where the entry point reports through an error result, a recovered panic must come out as
+		// a non-nil error — a function without named results returns zero values after recover(), i.e.
+		// (nil, nil): "success" with a nil answer, which the caller dereferences
+		res := e.fn.Signature.Results()
+		if res.Len() > 0 && types.Identical(res.At(res.Len()-1).Type(), types.Universe.Lookup("error").Type()) {
+			k7 := "entry:" + e.name + "|recovered-panic-is-an-error"
+			why := ""
+			if e.fn.Recover == nil {
+				why = "the function has no named results: after the deferred recover() it returns zero values (nil response, nil error), whatever the closure assigned to its locals; the caller takes that for success and uses the nil response"
+			} else {
+				// the closure must store into a variable that the recover block returns as the error result
+				returned := map[ssa.Value]bool{}
+				for _, in := range e.fn.Recover.Instrs {
+					if ret, ok := in.(*ssa.Return); ok && len(ret.Results) > 0 {
+						if u, ok := ret.Results[len(ret.Results)-1].(*ssa.UnOp); ok {
+							returned[u.X] = true
+						}
+					}
+				}
+				stored := false
+				if mc, ok := d.Call.Value.(*ssa.MakeClosure); ok {
+					cf := mc.Fn.(*ssa.Function)
+					allInstrs(cf, func(x ssa.Instruction) {
+						st, ok := x.(*ssa.Store)
+						if !ok {
+							return
+						}
+						fv, ok := st.Addr.(*ssa.FreeVar)
+						if !ok {
+							return
+						}
+						for i, f := range cf.FreeVars {
+							if f == fv && i < len(mc.Bindings) && returned[mc.Bindings[i]] && !isConstNil(st.Val) {
+								stored = true
+							}
+						}
+					})
+				}
+				if !stored {
+					why = "the deferred recover() does not store a non-nil error into the function's error result: the panic is swallowed and the caller sees success"
+				}
+			}
+			r.Check(why == "", "R12.7", k7, pos, "the deferred recover() stores a non-nil error into the named error result, which the recover path returns", why)
+		}
 	}
 
 	// ---------------------------------------------------------------- R12.2
